@@ -140,6 +140,17 @@ func callOf(s ast.Stmt) (call *ast.CallExpr, lhs []ast.Expr, form int) {
 				return c, nil, 3
 			}
 		}
+	case *ast.IfStmt:
+		// `if h(args) {…}` / `if !h(args) {…}`: the helper decides the branch
+		if x.Init == nil {
+			c := x.Cond
+			if u, ok := c.(*ast.UnaryExpr); ok && u.Op == token.NOT {
+				c = u.X
+			}
+			if ce, ok := c.(*ast.CallExpr); ok {
+				return ce, []ast.Expr{ast.NewIdent("inlinedResult")}, 4
+			}
+		}
 	case *ast.DeclStmt:
 		if gd, ok := x.Decl.(*ast.GenDecl); ok && gd.Tok == token.VAR && len(gd.Specs) == 1 {
 			if vs, ok := gd.Specs[0].(*ast.ValueSpec); ok && len(vs.Values) == 1 {
@@ -258,7 +269,7 @@ func expandCall(p *pkgInfo, self string, s ast.Stmt) string {
 			if form == 3 {
 				return x
 			}
-			if form == 1 && len(x.Results) == len(lhs) && len(lhs) > 0 {
+			if (form == 1 || form == 4) && len(x.Results) == len(lhs) && len(lhs) > 0 {
 				var l []ast.Expr
 				for _, t := range lhsText {
 					l = append(l, ast.NewIdent(t))
@@ -309,6 +320,19 @@ func expandCall(p *pkgInfo, self string, s ast.Stmt) string {
 	body.List = rewrite(body.List)
 	for _, st := range body.List {
 		b.WriteString(printNode(st))
+		b.WriteString("\n")
+	}
+	if form == 4 {
+		// the if statement itself, its condition now reading the helper's result
+		is := s.(*ast.IfStmt)
+		cond := "inlinedResult"
+		if _, neg := is.Cond.(*ast.UnaryExpr); neg {
+			cond = "!inlinedResult"
+		}
+		b.WriteString("if " + cond + " " + printNode(is.Body))
+		if is.Else != nil {
+			b.WriteString(" else " + printNode(is.Else))
+		}
 		b.WriteString("\n")
 	}
 	b.WriteString("}")
